@@ -481,6 +481,20 @@ type pxRun struct {
 // initialiser (pathx_globals.go); set by Paths.
 var pxGlobalConst func(name string) *T
 
+// pxGlobalFieldConst resolves a never-reassigned field of a package-level struct variable to the
+// value its initialiser gives it; set by Paths.
+var pxGlobalFieldConst func(global, field string) *T
+
+func globalNameOf(addr, base *T) string {
+	if addr != nil && addr.Op == "gaddr" {
+		return addr.Aux
+	}
+	if base != nil && base.Op == "global" {
+		return base.Aux
+	}
+	return ""
+}
+
 // Paths enumerates the paths of fn under cfg. Loops are unrolled up to the iteration bound; paths that
 // need more iterations are dropped. If that left an exit of an executed function unreached — a return
 // that only a longer run of the loop gets to (`if len(x) < 3 { … }; for … { … }; return raw`) — the
@@ -520,6 +534,7 @@ func (r *pxRun) unreachedExits() int {
 
 func (c *Ctx) paths1(fn *ssa.Function, cfg PXConfig) ([]*PXPath, bool, *pxRun) {
 	pxGlobalConst = c.globalConst
+	pxGlobalFieldConst = c.globalFieldConst
 	if cfg.MaxDepth == 0 {
 		cfg.MaxDepth = 3
 	}
@@ -1756,7 +1771,15 @@ func addrKey(a *T) string {
 func loadTerm(a *T, typ types.Type) *T {
 	switch a.Op {
 	case "faddr":
-		return fieldOfTerm(loadBase(a.A[0]), a.Aux, typ)
+		base := loadBase(a.A[0])
+		// a field of a package-level struct (or pointer to one) that nothing stores to after the
+		// variable's initialiser: the value the initialiser gave it
+		if gn := globalNameOf(a.A[0], base); gn != "" && pxGlobalFieldConst != nil {
+			if t := pxGlobalFieldConst(gn, a.Aux); t != nil {
+				return t
+			}
+		}
+		return fieldOfTerm(base, a.Aux, typ)
 	case "iaddr":
 		base := a.A[0]
 		if base.Op == "faddr" || base.Op == "iaddr" || base.Op == "gaddr" || base.Op == "alloc" {
